@@ -120,7 +120,9 @@ impl Property for C14 {
         "C14"
     }
     fn rule(&self) -> &'static str {
-        "case = C07-style scenario (1-4 names x 1-3 collectors among 11 kinds, vectors with 0-6 children, prefix, common labels); in \
+        "case = C07-style scenario (1-4 names x 1-3 collectors among 11 kinds, vectors with 0-6 children, prefix, common labels; in 17% of the scenarios \
+         with two or more collectors, 2+ of them are registered as one or two composite collectors whose collect() returns the members' families in a generated order \
+         unrelated to the order of desc()); in \
          ~15% of cases collectors of different kinds may share a name (same help and label names, different constant values), \
          otherwise that class is excluded by construction and counted. 6 builds under generated registration permutations and fresh \
          hash seeds. Oracle: every sample carries exactly the payload message of its family's declared type (protobuf build), reads \
@@ -182,7 +184,10 @@ impl Property for C14 {
         // a name changes hands: after a gather, every collector of one name is unregistered and collectors of ANOTHER kind
         // (same help, same label names, same constant-label values) are registered under it; the next gather must declare
         // and carry the new kind
-        if !mixed && src.chance(90) {
+        if !s.bundles.is_empty() {
+            rep.class("composite-collector(families returned in another order than the descriptors)");
+        }
+        if !mixed && s.bundles.is_empty() && src.chance(90) {
             let names: Vec<&String> = by_name_owned(&s);
             let g = names[src.below(names.len())].clone();
             let old_kind = s.colls.iter().find(|c| c.name == g).unwrap().kind;
